@@ -101,8 +101,8 @@ def classify(row, index=0):
     return info
 
 
-def classify_all(out_bytes):
-    rows = term.decode(out_bytes)
+def classify_all(out_bytes, merge=True):
+    rows = term.decode(out_bytes, merge=merge)
     return [classify(r, i) for i, r in enumerate(rows)]
 
 
